@@ -26,6 +26,7 @@ CALLEES = {
     "msk": "def msk(msk_v: Qint[2], v: Qint[2]) -> Qint[2]:\n    return msk_v & (v + 1)",
     "mix12": "def mix12(a: Qint[12]) -> Qint[12]:\n    return a ^ 1365",
     "oracle": "def oracle(a: Qint[2]) -> Qint[2]:\n    return a + 1",
+    "par3": "def par3(t: Tuple[bool, bool, bool]) -> bool:\n    return t[0] ^ (t[1] and not t[2])",
     "tup11": "def tup11(a: Qint[4]) -> Tuple[bool, bool, bool, bool, bool, bool, bool, bool, bool, bool, bool]:\n    return (a[0], a[1], a[2], a[3], a[0] ^ a[1], a[1] ^ a[2], a[2] ^ a[3], a[0] and a[3], a[1] or a[2], not a[0], a[3])",
 }
 
@@ -88,6 +89,15 @@ CALLERS = [
     ([], "def test(a: bool, b: bool) -> bool:\n    def inner(x: bool, y: bool) -> bool:\n        return x and not y\n    return inner(b, a)"),
     ([], "def test(a: Qint[2]) -> Qint[2]:\n    def inner(x: Qint[2]) -> Qint[2]:\n        return x + 1\n    return inner(inner(a))"),
     ([], "def test(a: Tuple[bool, Qint[2]]) -> Qint[2]:\n    def inner(x: Qint[2]) -> Qint[2]:\n        return x + 1\n    return inner(a[1])"),
+    # the same call text twice while its argument variable is re-bound in between (to another width / another nesting)
+    (["wide"], "def test(a: Qint[2], b: Qint[4]) -> Qint[4]:\n    x = a\n    y = wide(x)\n    x = b\n    z = wide(x)\n    return y + z"),
+    (["par3"], "def test(p: Tuple[bool, bool], c: bool, d: bool, e: bool, f: bool) -> bool:\n    x = (p, c)\n    r = par3(x)\n    x = (d, e, f)\n    s = par3(x)\n    return r and s"),
+    (["inc"], "def test(a: Qint[2], b: Qint[2]) -> Qint[2]:\n    x = a\n    y = inc(x)\n    x = b + 1\n    z = inc(x)\n    return y ^ z"),
+    (["both"], "def test(a: bool, b: bool, c: bool) -> bool:\n    x = a\n    r = both(x, c)\n    x = b\n    return r ^ both(x, c)"),
+    # an inline function that defines its own helper named like a sibling / like a compiled function in defs: innermost wins
+    ([], "def test(a: bool, b: bool) -> bool:\n    def h(x: bool) -> bool:\n        return not x\n    def g(y: bool, z: bool) -> bool:\n        def h(x: bool) -> bool:\n            return x\n        return h(y) and z\n    return g(a, b) ^ h(b)"),
+    (["neg"], "def test(a: bool, b: bool) -> bool:\n    def both2(p: bool, q: bool) -> bool:\n        def neg(b: bool) -> bool:\n            return b\n        return neg(p) and q\n    return both2(a, b) or neg(a)"),
+    (["inc"], "def test(a: Qint[2]) -> Qint[2]:\n    def twice(v: Qint[2]) -> Qint[2]:\n        def inc(x: Qint[2]) -> Qint[2]:\n            return x + 2\n        return inc(inc(v))\n    return twice(a) + inc(a)"),
     # an inline definition is a scope of its own: its parameters / locals named like the caller's (fix a54a0af)
     ([], "def test(a: Tuple[bool, bool, bool]) -> bool:\n    def g(a: Tuple[bool, bool]) -> bool:\n        return a[0] and a[1]\n    r = False\n    for x in a:\n        r = r ^ x\n    return r"),
     ([], "def test(a: Tuple[bool, bool, bool]) -> bool:\n    def g(a: Tuple[bool, bool]) -> bool:\n        return a[0] and a[1]\n    r = g((a[2], a[1]))\n    for x in a:\n        r = r ^ x\n    return r"),
